@@ -13,7 +13,7 @@ so keys of equal length appear in lexicographic order), and inside a leaf the ph
 leaf with the comparator of `trie.rs` (`leafCmp`).
 
 `Trie::lookup_first_n_phrases` walks the matching leaves, appends whole leaves, stops as soon as more
-than `first` phrases are collected and (since fix 5ab0621, F11) truncates to `first`.
+than `first` phrases are collected and (since fix 4e93dec, F11) truncates to `first`.
 
 ## TrieBuf
 `trie` snapshot + `btree` of pending entries (a `BTreeMap`, modelled as the sorted association list
@@ -24,7 +24,7 @@ on disk (`file`) and adopts it unless the dictionary was modified in between; `s
 writer in flight re-reads `file`.  An in-memory dictionary has `fileBacked = false` (`trie: None`):
 no snapshot, `flush`/`reopen` do nothing.
 
-`add_phrase`/`update_phrase` erase the tombstone of the key they insert (fix 9371536, F09).
+`add_phrase`/`update_phrase` erase the tombstone of the key they insert (fix 20fd01a, F09).
 -/
 namespace Chewing
 open MapSpec
@@ -71,7 +71,7 @@ def collect (n : Nat) : List (List Phrase) → List Phrase → List Phrase
     let acc' := acc ++ leaf
     if acc'.length > n then acc' else collect n rest acc'
 
-/-- `Trie::lookup_first_n_phrases` (with the final `truncate(first)` of fix 5ab0621) -/
+/-- `Trie::lookup_first_n_phrases` (with the final `truncate(first)` of fix 4e93dec) -/
 def lookupFirstN (t : List Leaf) (q : Key) (n : Nat) (st : Strategy) : List Phrase :=
   (collect n (lookupLeaves t q st) []).take n
 
